@@ -337,8 +337,7 @@ def lift_direction_differs(r0, r1):
 
 # columns fixed by the hydraulic stage of a sequential run (v, vdot use the density at the final temperatures)
 HYD_ONLY = ("p_bar", "p_from_bar", "p_to_bar", "mdot_from_kg_per_s", "mdot_to_kg_per_s", "mdot_kg_per_s",
-            "mdot_flow_kg_per_s", "reynolds", "lambda", "dp_friction_loss_bar", "dp_friction_loss_bar_mean_consistency",
-            "deltap_bar")
+            "mdot_flow_kg_per_s", "reynolds", "lambda", "dp_friction_loss_bar", "deltap_bar")
 
 
 def monitor_net(ctx, profile, name, spec, rng, counters, reverse_all=False, bidir=None):
